@@ -11,7 +11,7 @@ def split_histories(path, keep_trig=False):
         l = l.rstrip('\n')
         if l == 'END':
             hs.append(cur); cur = []
-        elif l.startswith(('TRIG', 'RESP', 'STORE', 'PRE', 'STEP', 'QUIET', 'WF', 'PROBE', 'VCOM')) and not keep_trig:
+        elif l.startswith(('TRIG', 'RESP', 'STORE', 'PRE', 'STEP', 'QUIET', 'WF', 'PROBE', 'VCOM', 'QMAL')) and not keep_trig:
             continue
         else:
             cur.append(l)
